@@ -85,7 +85,27 @@ def build_metric(name):
         return M.make_forecasting_scorer(_neg_mae, name="neg_mae", greater_is_better=True)
     if name == "neg_asym":
         return M.make_forecasting_scorer(_neg_asym, name="neg_asym", greater_is_better=True)
+    if name == "rmspe":
+        return M.MeanSquaredPercentageError(symmetric=False, square_root=True)
+    if name == "mdspe":
+        return M.MedianSquaredPercentageError(symmetric=False)
+    if name == "rmdspe_sym":
+        return M.MedianSquaredPercentageError(symmetric=True, square_root=True)
     raise ValueError(name)
+
+
+def metric_reference(name):
+    """the textbook value of the metric `build_metric(name)` as a plain function of (y_true, y_pred), written here from the definition
+    (None for user-made scorers, whose function is the definition)"""
+    A = lambda v: np.asarray(v, dtype=float)  # noqa
+    eps = np.finfo(np.float64).eps
+    pe = lambda t, p: np.abs(A(t) - A(p)) / np.maximum(np.abs(A(t)), eps)  # noqa
+    spe = lambda t, p: 2.0 * np.abs(A(t) - A(p)) / np.maximum(np.abs(A(t)) + np.abs(A(p)), eps)  # noqa
+    return {None: lambda t, p: float(np.mean(spe(t, p))), "smape": lambda t, p: float(np.mean(spe(t, p))), "mape": lambda t, p: float(np.mean(pe(t, p))),
+            "mse": lambda t, p: float(np.mean((A(t) - A(p)) ** 2)), "rmse": lambda t, p: float(np.sqrt(np.mean((A(t) - A(p)) ** 2))),
+            "mae": lambda t, p: float(np.mean(np.abs(A(t) - A(p)))), "mdae": lambda t, p: float(np.median(np.abs(A(t) - A(p)))),
+            "rmspe": lambda t, p: float(np.sqrt(np.mean(pe(t, p) ** 2))), "mdspe": lambda t, p: float(np.median(pe(t, p) ** 2)),
+            "rmdspe_sym": lambda t, p: float(np.sqrt(np.median(spe(t, p) ** 2)))}.get(name)
 
 
 def _asym_fn(y_true, y_pred):
